@@ -8,7 +8,7 @@ import importlib
 
 def writer_program(rng, tier):
     C17 = importlib.import_module("C17")
-    ops, sigs, has_omit = C17.gen_writer(rng, tier)
+    ops, sigs, has_omit = C17.gen_writer(rng, tier, deep=True)
     return ops, sigs, has_omit
 
 
@@ -100,7 +100,7 @@ def probe(ctx, programs, variant="plain"):
     return res
 
 
-def crash_points(rng, entries, tier, per_program):
+def crash_points(rng, entries, tier, per_program, tails=None):
     """all k; for in-place writes every j, for appends a few j"""
     pts = []
     end = 0
@@ -113,8 +113,10 @@ def crash_points(rng, entries, tier, per_program):
         inplace = off < end
         pts.append((k, 0, "between"))
         if inplace:
-            for j in range(1, ln):
-                pts.append((k, j, "inplace"))
+            js = range(1, ln) if tier != "quick" else sorted(set([1, 7, 8, 9, 28, 31, ln // 2, ln - 1]))
+            for j in js:
+                if 0 < j < ln:
+                    pts.append((k, j, "inplace"))
         else:
             for j in sorted(set([1, 8, 28, 31, ln // 2, ln - 1])):
                 if 0 < j < ln:
@@ -122,11 +124,29 @@ def crash_points(rng, entries, tier, per_program):
         end = max(end, off + ln)
     pts.append((len(entries), 0, "complete"))
     if len(pts) > per_program:
-        keep = [p for p in pts if p[2] in ("complete",)]
-        rest = [p for p in pts if p[2] not in ("complete",)]
+        # structural points first: every clean stop (j = 0) while an INDEX/SUMMARY pair or a HEAD table is being written,
+        # i.e. the file ends with (or inside) an INDEX or SUMMARY chunk, or the next write is in place
+        def structural(p):
+            k, j, kind = p
+            if j != 0:
+                return False
+            if kind == "complete":
+                return True
+            t = (tails[k] if tails and k < len(tails) else (None, None)) or (None, None)
+            names = [x for x in t if x]
+            if any(x.endswith(("_INDEX", "_SUMM")) for x in names):
+                return True
+            nxt = entries[k] if k < len(entries) else None
+            ends = [e[1] + e[2] for e in entries[:k] if e[0] == 0]
+            return bool(nxt) and nxt[0] == 0 and bool(ends) and nxt[1] < max(ends)
+        keep = [p for p in pts if structural(p)]
+        if len(keep) > (2 * per_program) // 3:
+            rng.shuffle(keep)
+            keep = keep[:(2 * per_program) // 3]
+        ks = set(keep)
+        rest = [p for p in pts if p not in ks]
         rng.shuffle(rest)
-        # keep a balanced sample: all kinds represented
-        pts = keep + rest[:per_program - len(keep)]
+        pts = keep + rest[:max(0, per_program - len(keep))]
     return pts
 
 
